@@ -22,8 +22,8 @@ func init() {
 		},
 		Run: runC13,
 		Controls: []Control{
-			{Name: "refresh-rewrites-locrib-path", File: "routingtable/adjRIBOut/adj_rib_out.go", Old: "p, propagate := a.checkPropagateUpdate(pfx, p.Copy())", New: "p, propagate := a.checkPropagateUpdate(pfx, p)", Expect: "mutator-gets-owned-path"},
-			{Name: "store-after-dedup", File: "routingtable/adjRIBOut/adj_rib_out.go", Old: "\tp.BGPPath = p.BGPPath.Dedup()\n\n\ta.mu.Lock()", New: "\tp.BGPPath = p.BGPPath.Dedup()\n\tif a.sessionAttrs.RouteServerClient {\n\t\tp.BGPPath.BGPPathA.MED = 0\n\t}\n\n\ta.mu.Lock()", Expect: "no-store-after-dedup"},
+			{Name: "refresh-rewrites-locrib-path", File: "routingtable/adjRIBOut/adj_rib_out.go", Old: "\t\tp, redist := p.CheckRedistribute(route.BGPPathType)\n", New: "\t\tvar redist bool\n", Expect: "mutator-gets-owned-path"},
+			{Name: "store-after-dedup", File: "routingtable/adjRIBOut/adj_rib_out.go", Old: "\tp.BGPPath = p.BGPPath.Dedup()\n\n\treturn a.addPath(pfx, p)", New: "\tp.BGPPath = p.BGPPath.Dedup()\n\tif a.sessionAttrs.RouteServerClient {\n\t\tp.BGPPath.BGPPathA.MED = 0\n\t}\n\n\treturn a.addPath(pfx, p)", Expect: "no-store-after-dedup"},
 			{Name: "chain-returns-callers-path", File: "routingtable/filter/chain.go", Old: "\tmp := pa.Copy()\n", New: "\tif len(c) == 0 {\n\t\treturn pa, false\n\t}\n\n\tmp := pa.Copy()\n", Expect: "process-copies-first"},
 			{Name: "update-sender-clears-path-id", File: "protocols/bgp/server/update_sender.go", Old: "\thash := p.BGPPath.ComputeHashWithPathID()\n\tif _, exists := u.toSend[hash]; exists {", New: "\tif !u.options.UseAddPath {\n\t\tp.BGPPath.PathIdentifier = 0\n\t}\n\thash := p.BGPPath.ComputeHashWithPathID()\n\tif _, exists := u.toSend[hash]; exists {", Expect: "client-does-not-mutate"},
 		},
